@@ -163,8 +163,22 @@ def local_callees(facts, f, depth=3):
             for b in bodies:
                 for blk in b['body']['blocks']:
                     t = blk['term']
+                    refs = []
                     if t['t'] == 'call' and 'fn' in t['func']:
-                        d = t['func']['fn']['def']
+                        refs.append(t['func']['fn'])
+                    # functions handed over as values (`.map_or_else(|| …, helper)`) are called by the callee
+                    ops = list(t.get('args') or [])
+                    for stt in blk['stmts']:
+                        rv = stt.get('rv') or {}
+                        for key in ('op', 'a', 'b'):
+                            if isinstance(rv.get(key), dict):
+                                ops.append(rv[key])
+                        ops += [o for o in (rv.get('ops') or []) if isinstance(o, dict)]
+                    for o in ops:
+                        if isinstance(o, dict) and o.get('k') == 'const' and 'fn' in o:
+                            refs.append(o['fn'])
+                    for fnref in refs:
+                        d = fnref['def']
                         if d.get('local') and d.get('idx') in facts.fn_by_idx:
                             h = facts.fn_by_idx[d['idx']]
                             if h is not g and h not in seen and h['kind'] == 'Fn':
@@ -185,6 +199,9 @@ def ty_is(t, what):
         return t.get('k') == 'float'
     if isinstance(what, tuple):
         return t.get('k') == 'adt' and t.get('path') == what[0] and t.get('args') and t['args'][0].get('path') == what[1]
+    if t.get('k') == 'ref' and not t.get('mut'):
+        # a small Copy argument passed by shared reference plays the same role
+        return ty_is(t['ty'], what)
     return t.get('k') == 'adt' and t.get('path') == what
 
 
